@@ -344,6 +344,22 @@ func ruleOPS3(c *Ctx) []Obligation {
 				continue
 			}
 			fs := sortedKeys(ci.flows[pv.Name()])
+			if len(fs) > 1 {
+				seeds := false
+				var rest []string
+				for _, f := range fs {
+					if f == "Successors" {
+						seeds = true
+					} else {
+						rest = append(rest, f)
+					}
+				}
+				if seeds {
+					o.Verdict = VIOL
+					o.Detail = fmt.Sprintf("the constructor pre-seeds the Successors cache from its parameter %s (which also fills %v): the cache shares storage with the caller's slice and is not derived from the target fields, so Succs() can differ from the branch targets", pv.Name(), rest)
+					continue
+				}
+			}
 			if len(fs) != 1 {
 				o.Verdict, o.Detail = UNDECIDED, fmt.Sprintf("constructor parameter %s flows into %v", pv.Name(), fs)
 				continue
